@@ -32,8 +32,12 @@ def mutate(rng, s):
 def dom(fn, a):
     if fn in ("encode_pinblock_iso_0",):
         return 4 <= len(a[0]) <= 12 and dec(a[0]) and len(a[1]) >= 13 and dec(a[1])
-    if fn == "encode_pinblock_iso_2":
+    if fn in ("encode_pinblock_iso_2", "encode_pin_field_iso_4"):
         return 4 <= len(a[0]) <= 12 and dec(a[0])
+    if fn == "encode_pinblock_iso_3":
+        return 4 <= len(a[0]) <= 12 and dec(a[0]) and len(a[1]) >= 13 and dec(a[1])
+    if fn == "encipher_pinblock_iso_4":
+        return len(a[0]) in (16, 24, 32) and 4 <= len(a[1]) <= 12 and dec(a[1]) and 1 <= len(a[2]) <= 19 and dec(a[2])
     if fn == "encode_pan_field_iso_4":
         return 1 <= len(a[0]) <= 19 and dec(a[0])
     if fn == "generate_cvv":
@@ -173,6 +177,19 @@ def run(ctx):
             cases.append(("generate_retail_mac", (rng.randbytes(8), rng.randbytes(8), b"abc", p, None)))
         for v in (-1, 0, 31, 32, 100):
             cases.append(("apply_key_variant", (rng.randbytes(16), v)))
+    # the randomised encoders: only the accept / reject verdict is compared (implementation side)
+    RANDOMISED = ("encode_pinblock_iso_3", "encode_pin_field_iso_4", "encipher_pinblock_iso_4")
+    rand_cases = []
+    pin, pan, pan4 = rnd(rng, 6), rnd(rng, 16), rnd(rng, 10)
+    for v in text_variants(rng, pin, 4, 12):
+        rand_cases += [("encode_pinblock_iso_3", (v, pan)), ("encode_pin_field_iso_4", (v,)),
+                       ("encipher_pinblock_iso_4", (rng.randbytes(16), v, pan4))]
+    for v in text_variants(rng, pan, 13, 24):
+        rand_cases.append(("encode_pinblock_iso_3", (pin, v)))
+    for v in text_variants(rng, pan4, 1, 19):
+        rand_cases.append(("encipher_pinblock_iso_4", (rng.randbytes(24), pin, v)))
+    for n in range(0, 41):
+        rand_cases.append(("encipher_pinblock_iso_4", (rng.randbytes(n), pin, pan4)))
     # negative numbers are outside the model's typed domain (N): keep them impl-only
     impl_only = [c for c in cases if any(isinstance(x, int) and not isinstance(x, bool) and x < 0 for x in c[1])
                  and c[0] != "apply_key_variant"]
@@ -186,8 +203,10 @@ def run(ctx):
              "superscript, math digits, signs, '_', white space, NUL, letters) by substitution / insertion / prefix / suffix; byte "
              "parameters (keys, IVs, data, blocks) every length 0..40; IBM 3624 windows incl. past the end; verdict of impl and "
              "model compared with independently written domain predicates; non-trivial = distinct cases (every case probes a guard)")
-    for fn, args in impl_only:
+    for fn, args in impl_only + rand_cases:
         out = core.impl_call(fn, args)
+        if fn in RANDOMISED and out[0] == "OK":
+            out = ("OK", "")
         v = check_impl(fn, args, out)
         res["evaluations"] += 1
         if v:
